@@ -44,6 +44,7 @@ import (
 	"os"
 	"os/exec"
 	"path/filepath"
+	"regexp"
 	"sort"
 	"strconv"
 	"strings"
@@ -532,6 +533,8 @@ func unCheckFilter(fails *unFails, res *benchfmt.Result, which, q string, vals [
 	if unBareWordOK(q) {
 		forms = append(forms, q)
 	}
+	// the same unit named by an anchored regular expression
+	forms = append(forms, "/^"+strings.ReplaceAll(regexp.QuoteMeta(q), "/", `\/`)+"$/")
 	for fi, form := range forms {
 		expr := ".unit:" + form
 		f, err := benchproc.NewFilter(expr)
